@@ -10,6 +10,7 @@ ASSUMPTIONS = [
     'slice start/stop are symbolic in [-(n+2), n+2] or None, step concrete per job in +-1..+-3 or None; CrossHair realises slice parameters at the C boundary, '
     'so the range is chosen to exceed the length on both sides (every clamping case of PySlice_AdjustIndices); the unbounded statement about '
     'slice lengths is the Engine-B lemma (z3/cvc5, all integers)',
+    'comparison values other than ints are menu-bounded: {None, NaN, 0.0, 1, inf} (cmp-menu obligations), 2 elements per operand',
     'a wrong-length mask must raise some exception (Vector raises ValueError, Table uses assert)',
 ]
 
@@ -55,6 +56,58 @@ def h_cmp(a: int, b: int, c: int, x: int, y: int, z: int, n: int) -> bool:
         sch = r.schema()
         if sch is None or sch.kind is not bool or sch.nullable: return H.fail('comparison typed %r' % (sch,))
     if not H.same_list(list(v), vl): return H.fail('operand changed')
+    return H.ok()
+
+
+CMENU = [None, float('nan'), 0.0, 1, float('inf')]      # None and NaN are the two values for which x == x does not hold
+
+
+def _cmp_menu_body(op, form, idx, widx):
+    f = CMP[op]
+    vl = [CMENU[i] for i in idx]; wl = [CMENU[i] for i in widx]
+    def py(p, q_):
+        if p is None or q_ is None: return False        # C06: None compares False at its position
+        return bool(f(p, q_))
+    v = Vector(list(vl), name='nm')
+    if form == 'self': r = f(v, v); want = [py(p, p) for p in vl]; shown = (vl, vl)
+    elif form == 'self-table':
+        t = Table({'p': list(vl), 'q': list(wl)})
+        r = f(t, t)
+        got = [list(col) for col in r.cols()]
+        want = [[py(p, p) for p in vl], [py(p, p) for p in wl]]
+        if repr(got) != repr(want): return H.fail('table %s itself, columns %r %r: %r, Python gives %r' % (op, vl, wl, got, want))
+        return True
+    elif form == 'vv': r = f(v, Vector(list(wl))); want = [py(p, q_) for p, q_ in zip(vl, wl)]; shown = (vl, wl)
+    elif form == 'vl': r = f(v, list(wl)); want = [py(p, q_) for p, q_ in zip(vl, wl)]; shown = (vl, wl)
+    elif form == 'vs':
+        if wl[0] is None: return True                   # a bare None as right operand is outside this obligation
+        r = f(v, wl[0]); want = [py(p, wl[0]) for p in vl]; shown = (vl, wl[0])
+    else: raise ValueError(form)
+    got = list(r)
+    if len(got) != len(want) or any(g is not w for g, w in zip(got, want)):
+        return H.fail('%s[%s] %r %r -> %r, Python %r' % (op, form, shown[0], shown[1], got, want))
+    sch = r.schema()
+    if sch is None or sch.kind is not bool or sch.nullable: return H.fail('comparison typed %r' % (sch,))
+    # the mask selects exactly the True positions
+    if form in ('self', 'vv'):
+        kept = list(v[r])
+        wantk = [p for p, w in zip(vl, want) if w]
+        if repr(kept) != repr(wantk): return H.fail('v[v %s w] kept %r, expected %r' % (op, kept, wantk))
+    return True
+
+
+def h_cmp_menu(i0: int, i1: int, j0: int, j1: int) -> bool:
+    """
+    pre: 0 <= i0 < 5 and 0 <= i1 < 5 and 0 <= j0 < 5 and 0 <= j1 < 5
+    pre: H.cfg('form') != 'self' or (j0 == 0 and j1 == 0)
+    pre: H.cfg('form') != 'vs' or j1 == 0
+    post: _
+    """
+    H.reset()
+    if H.skip(locals()): return True
+    M = list(range(len(CMENU)))
+    idx = (H.among(M, i0), H.among(M, i1)); widx = (H.among(M, j0), H.among(M, j1))
+    if H.concrete(_cmp_menu_body, H.cfg('op'), H.cfg('form'), idx, widx) is not True: return False
     return H.ok()
 
 
@@ -390,6 +443,10 @@ def obligations(tier):
             for n in ((3,) if q else (0, 1, 2, 3)):
                 obs.append(dict(name='cmp[%s,%s,n=%d]' % (op, form, n), fn='h_cmp', config={'op': op, 'form': form, 'n': n}, budget=60 if q else 300,
                                 bounds='%d-element int vectors, unbounded symbolic' % n, smoke=[[1, 2, 3, 3, 2, 1, n]]))
+        for form in ('vv', 'vs', 'vl', 'self', 'self-table'):
+            obs.append(dict(name='cmp-menu[%s,%s]' % (op, form), fn='h_cmp_menu', config={'op': op, 'form': form}, budget=90 if q else 200,
+                            bounds='2-element operands, every element a solver-chosen entry of {None, NaN, 0.0, 1, inf}; forms vector/vector, vector/scalar, vector/list, a vector (or table) against itself; the resulting mask is also applied',
+                            smoke=[[1, 3, 0, 0], [2, 2, 0, 0]]))
         for sf in (False, True):
             obs.append(dict(name='cmp-table[%s,%s]' % (op, 'self' if sf else 'scalar'), fn='h_cmp_table', config={'op': op, 'self': sf}, budget=60 if q else 300,
                             bounds='2x2 int table vs scalar / vs itself', smoke=[[1, 2, 3, 4, 2]]))
